@@ -562,6 +562,33 @@ func (it *tinterp) run(atoms []Atom, loopSlot string) {
 			}
 		case "assign":
 			as := a.Node.(*ast.AssignStmt)
+			// a scheme method (or a helper inlined into it) must not touch the compiler's state
+			// except through the emit primitives: a direct write to the instruction stream, the
+			// constant pool or the location table is outside what the templates describe
+			for _, l := range as.Lhs {
+				base := Unparen(l)
+				for {
+					switch x := base.(type) {
+					case *ast.IndexExpr:
+						base = Unparen(x.X)
+						continue
+					case *ast.SliceExpr:
+						base = Unparen(x.X)
+						continue
+					case *ast.StarExpr:
+						base = Unparen(x.X)
+						continue
+					}
+					break
+				}
+				if sel, ok := base.(*ast.SelectorExpr); ok {
+					if s := info.Selections[sel]; s != nil && s.Kind() == types.FieldVal {
+						if rt := s.Recv(); rt != nil && strings.Contains(rt.String(), em.CompType.Obj().Name()) {
+							it.problem("direct write to the compiler's state outside the emit primitives: %s", ExprStr(as.Lhs[0])+" "+as.Tok.String()+" …")
+						}
+					}
+				}
+			}
 			if len(as.Lhs) == len(as.Rhs) {
 				for i, l := range as.Lhs {
 					id, ok := l.(*ast.Ident)
